@@ -72,7 +72,7 @@ impl Prop for C19 {
         true
     }
     fn cases(&self, ctx: &Ctx) -> u64 {
-        ctx.tier.pick(500, 8_000)
+        ctx.tier.pick(4000, 30_000)
     }
     fn rule(&self) -> &'static str {
         "real binary run from nested working directories: depth 0-6 between the working directory and the directory holding pasfmt.toml, several pasfmt.toml on the path (nearest must win), --config-file (existing, missing, a directory), random subsets of the 7 options split between file and -C, repeated -C for one key, documented values plus invalid ones (unknown key in file or -C, ill-typed values, out-of-range tab_width, bad enum, nested table); a 20-line reference resolver (defaults, then nearest file or --config-file, then -C in order) predicts the effective configuration; oracle: output equals the output of the same binary given the predicted configuration entirely through -C from an empty directory; rejections: non-zero exit, no file modified. Non-trivial: >= 2 layers set the same key to different values; distinct by layer contents."
